@@ -38,6 +38,8 @@ P == D * W
 CFail(vr, sm) == [ok |-> FALSE, VR |-> vr, SM |-> sm]
 COk(vr, sm) == [ok |-> TRUE, VR |-> vr, SM |-> sm]
 Max(a, b) == IF a > b THEN a ELSE b
+\* floor(a * b / c) without leaving TLC's 32-bit integers (a, b, c >= 0, c > 0)
+MulDiv(a, b, c) == (a \div c) * b + ((a % c) * b) \div c
 
 \* ---- proving-period arithmetic (as in Sectors.tla; off = the miner's period offset)
 QuantUp(e, off) == LET r == (e - off) % P IN IF r = 0 THEN e ELSE e + (P - r)
@@ -198,7 +200,7 @@ ExtendOne(vr, sm, dc, space, e) ==
            ELSE [ok |-> TRUE,
                  SM |-> PutSec(sm, dc.n, [s EXCEPT !.exp = dc.exp, !.base = e,
                                                    !.vs = IF s.vs > 0 THEN sp.keep ELSE 0,
-                                                   !.dw = IF s.dw > 0 THEN (s.dw * (s.exp - e)) \div (s.exp - s.base) ELSE 0])]
+                                                   !.dw = IF s.dw > 0 THEN MulDiv(s.dw, s.exp - e, s.exp - s.base) ELSE 0])]
 RECURSIVE ExtendFoldC(_, _, _, _, _, _)
 ExtendFoldC(vr, sm, decls, i, space, e) ==
   IF i > Len(decls) THEN [ok |-> TRUE, SM |-> sm]
